@@ -266,6 +266,25 @@ def impl(case):
         elif ev["k"] == "shape":
             w.pixel_shape = ev["v"]
             rec["ok"] = True
+        elif ev["k"] == "derived":
+            # a second WCS built from this one's pipeline (or by fix_inputs) is edited: this one must not notice
+            snap = _snapshot(w)
+            pts = [np.array([10.0, 200.0]), np.array([20.0, 100.0])]
+            before = _canon(w(*pts, with_bounding_box=False))
+            try:
+                w2 = gw.WCS(w.pipeline) if ev["how"] == "pipeline" else w.fix_inputs({})
+                if ev["edit"] == "set":
+                    w2.set_transform(w2.available_frames[-2], w2.available_frames[-1], S.step2(ev["params"]))
+                else:
+                    w2.insert_transform(w2.available_frames[-1], models.Shift(3.0) & models.Shift(-2.0), after=False)
+                rec["ok"] = True
+            except Exception as e:
+                rec["ok"] = False
+                rec["err"] = C.exc_enum(e)
+            after = _snapshot(w)
+            rec["unchanged"] = after == snap and _canon(w(*pts, with_bounding_box=False)) == before
+            if not rec["unchanged"]:
+                rec["changed"] = [k for k in snap if snap[k] != after[k]] or ["forward values"]
         else:
             tw = _twin(w)
             snap = _snapshot(w)
@@ -298,6 +317,9 @@ def oracle(case, res):
                 out.append(("atomic", "event %d: rejected edit %s changed the WCS" % (n, ev)))
             if ev["op"] != "bad" and not rec["ok"]:
                 out.append(("rejected_valid", "event %d: valid edit %s raised %s" % (n, ev["op"], rec.get("err"))))
+        elif ev["k"] == "derived":
+            if not rec["unchanged"]:
+                out.append(("shared", "event %d: editing a WCS derived from this one (%s, %s) changed %s of this one" % (n, ev["how"], ev["edit"], rec.get("changed"))))
         elif ev["k"] == "query":
             if not rec["unchanged"]:
                 out.append(("query_mutates", "event %d: query %s changed %s of the WCS" % (n, ev["q"], rec.get("changed"))))
@@ -332,7 +354,7 @@ def request(case, res):
     for ev, rec in zip(case["events"], res["steps"]):
         if ev["k"] == "edit":
             evs.append({"k": "edit", "ok": bool(rec["ok"])})
-        elif ev["k"] == "shape":
+        elif ev["k"] in ("shape", "derived"):
             evs.append({"k": "query", "inverting": False})
         else:
             evs.append({"k": "query", "inverting": bool(ev.get("inverting"))})
@@ -466,6 +488,16 @@ def gen(rng, tier):
                     ev["from"], ev["to"] = rng.choice([("detector", "focal"), ("focal", "sky"), ("detector", "sky"), ("focal", "detector") if analytic else ("detector", "focal")])
                     ev["pt"] = [rng.uniform(0, 500), rng.uniform(0, 500)]
                 events.append(ev)
+        if rng.random() < 0.3:
+            events.insert(rng.randrange(len(events) + 1), {"k": "derived", "how": rng.choice(["pipeline", "pipeline", "fix_inputs"]),
+                                                            "edit": rng.choice(["set", "instr"]), "params": S.gen_params(rng)})
+        if rng.random() < 0.35:
+            # motif: evaluate, replace or remove the bounding box, evaluate the same points again (some inside exactly one of the boxes)
+            pts = [[rng.uniform(-100, 1500), rng.uniform(-100, 1500)] for _ in range(5)]
+            events.append({"k": "query", "q": "forward", "pts": pts, "wbb": True})
+            events.append({"k": "edit", "op": "bbox", "v": None if rng.random() < 0.3 else
+                           [[-0.5, rng.randint(300, 1200) - 0.5], [-0.5, rng.randint(300, 1200) - 0.5]]})
+            events.append({"k": "query", "q": "forward", "pts": pts, "wbb": True})
         yield {"params": p, "bbox0": bbox0, "events": events}
     # separable 3-axis WCS whose coupling pattern is changed by edits (incl. direct assignment to a pipeline step) between queries
     # that depend on the separability analysis (correlation matrix, -TAB grouping)
@@ -493,7 +525,7 @@ def gen(rng, tier):
                 q = rng.choice(["props", "props", "tab", "fits", "forward"])
                 ev = {"k": "query", "q": q}
                 if q == "forward":
-                    ev["pts"] = [[rng.uniform(0, 4), rng.uniform(0, 4), rng.uniform(0, 4)] for _i in range(3)]
+                    ev["pts"] = [[rng.uniform(-1, 10), rng.uniform(-1, 10), rng.uniform(-1, 10)] for _i in range(4)]
                 if q in ("tab", "fits"):
                     ev["bbox"] = [[0.0, float(rng.randint(3, 6))] for _i in range(3)]
                     ev["sampling"] = rng.choice([1, 2])
